@@ -623,7 +623,10 @@ func history(in, out string) int {
 				a := r.x.query(ep, k, w)
 				r.stats.Queries++
 				key := fmt.Sprintf("%s/%d/%d/%d", ep, k, w.From, w.To)
+				// (readability of the acknowledged items was evaluated on the full sweep after the previous step)
+				r.noAcked = true
 				r.check(map[string]Answer{key: a}, map[string]any{key: last["ans"]}, nil)
+				r.noAcked = false
 				continue
 			default:
 				r.infra = append(r.infra, "unknown action "+st.Action)
